@@ -164,6 +164,9 @@ func (e *Env) MustGit(dir string, args ...string) (Result, error) {
 // WriteFile writes a work-tree file and back-dates its mtime by one hour so
 // that index entries are never racily clean (see DESIGN.md 3.8).
 func (e *Env) WriteFile(path string, data []byte, mode os.FileMode) error {
+	if fi, err := os.Lstat(path); err == nil && fi.Mode()&os.ModeSymlink != 0 {
+		os.Remove(path) // never write through a symbolic link
+	}
 	if err := os.MkdirAll(filepath.Dir(path), 0o755); err != nil {
 		return err
 	}
